@@ -667,6 +667,12 @@ func scnRecreate(ctx *check.JobCtx) {
 		// before any of its shards is stored: the model must return to the committed version, lifetime included
 		w.CompleteAll(oid)
 		w.EndBlock()
+		if ctx.Arg("renewed", "") == "1" {
+			// the committed version has been renewed: the model's order list is longer than its version history
+			w.Advance(int64(10 + r.Intn(200)))
+			w.Renew(o.Id, nil, g.Acct, "", 3600+uint64(r.Intn(500)), 300, nil, did)
+			w.EndBlock()
+		}
 		w.Advance(int64(200 + r.Intn(1500)))
 		md := w.Cur.Metas[did]
 		to := int32(20 + r.Intn(30))
@@ -682,7 +688,7 @@ func scnRecreate(ctx *check.JobCtx) {
 			}
 		}
 		w.EndBlock()
-		w.Case("c05:recipe:%s:accepted=%v,op=%d", mode, u != 0, op)
+		w.Case("c05:recipe:%s:accepted=%v,op=%d,renewed=%v", mode, u != 0, op, ctx.Arg("renewed", "") == "1")
 		last := l.lastScheduled()
 		if last > 0 && int64(last) < w.C.Height+20000 {
 			w.AdvanceTo(int64(last) + 2)
